@@ -112,14 +112,18 @@ def norm_src(fn):
     return ast.unparse(fn)
 
 
+_IMPL = []
+
+
 def load_impl():
-    """(re)import ppci.ir and ppci.opt.constantfolding from the tree under test"""
-    ensure_repo_on_path()
-    import importlib
-    import ppci.ir as ir
-    import ppci.opt.constantfolding as cf
-    importlib.reload(cf)
-    return ir, cf
+    """import ppci.ir and ppci.opt.constantfolding from the tree under test (once per process)"""
+    if not _IMPL:
+        ensure_repo_on_path()
+        import ppci.ir as ir
+        import ppci.opt.constantfolding as cf
+        assert os.path.abspath(cf.__file__).startswith(os.path.abspath(REPO)), cf.__file__
+        _IMPL.extend([ir, cf])
+    return _IMPL[0], _IMPL[1]
 
 
 def regen(ctx):
@@ -620,6 +624,8 @@ def helper_cases(ctx, gen):
             bs = [0, 1, -1, 2, 7, ty.bits - 1, ty.bits, ty.bits + 1, -ty.bits, rng.randint(lo, hi)]
             for a in [0, 1, -7 if lo < 0 else 7, lo, hi, rng.randint(lo, hi)]:
                 for b in bs:
+                    if key == '<<' and b > 4096:
+                        continue       # neither CPython nor coqc should build a 2^(2^31) integer
                     try:
                         r = OkV(f(ty, a, b))
                     except Exception:   # noqa: BLE001
